@@ -52,6 +52,14 @@ func c12Morph(m protoreflect.Message, tree *C12Msg, bi *c12BuildInfo) error {
 		}
 		want[n] = &tree.F[i]
 	}
+	// unknown fields of this message: exactly those of the tree
+	raw, err := c12UnknownBytes(md, tree.U)
+	if err != nil {
+		return err
+	}
+	if len(raw) > 0 || len(m.GetUnknown()) > 0 {
+		m.SetUnknown(raw)
+	}
 	fs := md.Fields()
 	for i := 0; i < fs.Len(); i++ {
 		fd := fs.Get(i)
@@ -445,6 +453,10 @@ func c12CopyVal(v C12Val) C12Val {
 
 func c12CopyMsg(m *C12Msg) *C12Msg {
 	out := &C12Msg{}
+	for _, u := range m.U {
+		u.X = append([]byte(nil), u.X...)
+		out.U = append(out.U, u)
+	}
 	for _, f := range m.F {
 		g := C12Fld{Num: f.Num, Name: f.Name, Empty: f.Empty}
 		if f.V != nil {
@@ -512,6 +524,15 @@ func c12EditOnce(t *rapid.T, md protoreflect.MessageDescriptor, msg *C12Msg, dep
 		if !present[int32(fd.Number())] && !(isMsg && depth >= g.maxDepth) {
 			absent = append(absent, fd)
 		}
+	}
+	// now and then the edit concerns the unknown fields of this message
+	if c12Gen8.Draw(t, "edit-unknown") == 7 {
+		if len(msg.U) > 0 && rapid.Bool().Draw(t, "drop") {
+			msg.U = msg.U[:len(msg.U)-1]
+		} else {
+			msg.U = append(msg.U, c12GenUnknown(t, md, msg.U))
+		}
+		return
 	}
 	action := c12Gen8.Draw(t, "edit")
 	// 0-2 descend, 3-4 add, 5 remove, 6-7 change; fall back when not applicable
@@ -699,6 +720,17 @@ func c12HistSweep(levels int, emit func(C12Case)) {
 			{"all-empty -> full", c12AllEmpty(ty.md), full},
 			{"full -> other full", full, c12Full(ty.md, 3, 5)},
 			{"other full -> full", c12Full(ty.md, 3, 5), full},
+		}
+		// unknown fields appear, disappear and change in place
+		un := c12UnknownNumbers(ty.md)[0]
+		withU := &C12Msg{U: []C12Unk{{Num: un, W: "bytes", X: []byte("newer-peer")}}}
+		fullU := c12CopyMsg(full)
+		fullU.U = []C12Unk{{Num: un, W: "varint", V: 300}, {Num: un, W: "fixed64", V: 7}}
+		for _, pr := range [][3]any{{"unknown -> {}", withU, &C12Msg{}}, {"{} -> unknown", &C12Msg{}, withU}, {"full+unknown -> full", fullU, full}, {"full -> full+unknown", full, fullU}, {"unknown -> full+unknown", withU, fullU}} {
+			pairs = append(pairs, struct {
+				label    string
+				from, to *C12Msg
+			}{pr[0].(string), pr[1].(*C12Msg), pr[2].(*C12Msg)})
 		}
 		// one field alone: set, cleared, changed in place
 		one, other := c12Full(ty.md, 1, 0), c12Full(ty.md, 1, 3)
